@@ -16,7 +16,7 @@ from vlib.runner import HarnessError, Mismatch, drive
 PROP = "C01"
 LEVEL = "exploration"
 WORKERS = {"quick": 4, "thorough": 16}
-BUDGET = {"quick": 60, "thorough": 600}
+BUDGET = {"quick": 100, "thorough": 600}
 RULE = (
     "Cases: (a) bounded enumeration of state points over keys {a,b}, values from the "
     "type-colliding pool {0,1,1.0,True,'1',2,None} nested in lists/dicts to depth 2 "
